@@ -347,7 +347,7 @@ func propC09(r *Run, w *World) {
 		// helper stores its value parameter under its key parameter
 		ok := false
 		instrsOf(h, func(in ssa.Instruction) {
-			if mu, isMU := in.(*ssa.MapUpdate); isMU && mu.Key == ssa.Value(h.Params[0]) && mu.Value == ssa.Value(h.Params[1]) {
+			if mu, isMU := in.(*ssa.MapUpdate); isMU && isParamValue(mu.Key, h.Params[0]) && isParamValue(mu.Value, h.Params[1]) {
 				ok = true
 			}
 		})
